@@ -344,7 +344,7 @@ macro_rules! impl_int {
             fn to_json(&self) -> Value { json!(self.to_string()) }
             fn from_json(v: &Value) -> Option<Self> { v.as_str()?.parse().ok() }
             #[allow(unused_comparisons)]
-            fn weight(&self) -> u128 { if *self < 0 { (*self as i128).unsigned_abs() * 2 + 1 } else { (*self as u128) * 2 } }
+            fn weight(&self) -> u128 { if *self < 0 { (*self as i128).unsigned_abs().saturating_mul(2).saturating_add(1) } else { (*self as u128).saturating_mul(2) } }
             fn pcmp(&self, o: &Self) -> Option<Ordering> { Some(self.cmp(o)) }
             fn hash_borrowed(&self) -> Option<u64> { Some(fixed_hash(self)) }
             fn display_(&self) -> Option<String> { Some(self.to_string()) }
